@@ -966,14 +966,14 @@ pub fn generate(ctx: &mut Ctx) {
         let nthreads = 8;
         let qss: Vec<Vec<Q>> = (0..nthreads)
             .map(|t| {
-                (0..220)
+                (0..420)
                     .map(|k| {
-                        if k % 5 == 4 {
+                        if k % 7 == 6 {
                             Q::Inh(rng.pick(&uni).clone())
-                        } else if k % 2 == 0 {
-                            Q::Inh(format!("zz{i}x{t}x{k}"))
-                        } else {
+                        } else if k % 7 == 3 {
                             Q::Sup(format!("zz{i}x{t}x{k}"))
+                        } else {
+                            Q::Inh(format!("zz{i}x{t}x{k}"))
                         }
                     })
                     .collect()
